@@ -207,6 +207,22 @@ def _case(rng, tier, k, scale=1.0, near_equal=False):
             c['stages'].append(st1)
     return c
 
+def _untyped(rng, tier, k):
+    """a wavefront that met only a plain lentil.Plane (plane type none) handed to propagate_dft: one stage, no tilt; every second case with a
+    mask of the wrong shape (both dimensions) — the plane-type check must come first (TypeError, not ValueError)"""
+    while True:
+        c = _case(rng, tier, 0)
+        if len(c['stages']) == 1 and not c.get('fit_tilt'): break
+    st = c['stages'][0]
+    st['tilt_px'] = []; st['tilt'] = []
+    c['untyped'] = True
+    if k % 2:
+        sh = _sh2(st, c['pupil']['shape']); S = [sh[0] * st['os'], sh[1] * st['os']]
+        S2 = [S[0] + int(rng.integers(1, 4)), S[1] + int(rng.integers(1, 4))]
+        mk = np.zeros(S2, dtype=int); mk[:S[0], :S[1]] = 1
+        st['mask'] = {'shape': S2, 'bits': [int(x) for x in mk.ravel()], 'dtype': 'int', 'bad': 'both'}
+    return c
+
 def _critical(rng, lo=64, hi=100):
     """large pupil filling its array, at least one ODD dimension, critically sampled (alpha = 1/n per axis), output = input
     shape, no tilt/mask: the regime where a DFT could be swapped for an FFT — the optical axis must stay at floor(n/2).
@@ -236,6 +252,7 @@ def generate(rng, tier):
     n = {'quick': 240, 'thorough': 3000, 'search': 300}[tier]
     out = [_case(rng, tier, k) for k in range(n)]
     out += _extremes(rng, tier, {'quick': 12, 'thorough': 240, 'search': 240}[tier])
+    out += [_untyped(rng, tier, k) for k in range({'quick': 8, 'thorough': 120, 'search': 60}[tier])]
     # IEEE tie of the model's truncation (TruncLike.trunc at Float) with np.fix: adversarial doubles per case
     for c in out:
         if not c.get('nomodel'): c['fix_probe'] = _fix_probe(rng)
@@ -273,6 +290,9 @@ def _build(c):
         mask = np.array([(seg == k).astype(int) for k in range(1, seg.max() + 1)])
     dx = c['dx'][0] if c['scalar_dx'] else tuple(c['dx'])
     wl, z = _wz(c)
+    if c.get('untyped'):
+        # a plain Plane: the wavefront keeps plane type none (it has met no pupil / image plane)
+        return lentil.Wavefront(wavelength=wl) * lentil.Plane(amplitude=amp, opd=opd, mask=mask, pixelscale=dx)
     pupil = lentil.Pupil(amplitude=amp, opd=opd, mask=mask, pixelscale=dx, focal_length=z)
     if c.get('fit_tilt'): pupil = pupil.fit_tilt()
     w = lentil.Wavefront(wavelength=wl) * pupil
@@ -384,7 +404,7 @@ def requests(c, io):
     # the call's arguments as written (None / int / pair): defaults and broadcasting are resolved by the model's generated code
     return [{'op': 'c02.propagate_dft', 'fields': [_bits_field(f) for f in inp['fields']],
              'dx': vlib.fl(inp['pixelscale']), 'du': vlib.fl(st['du']), 'wl': vlib.fbits(inp['wavelength']), 'z': vlib.fbits(inp['focal_length']),
-             'os': st['os'], 'wshape': inp['shape'], 'shape': st['shape'], 'prop_shape': st['prop_shape'],
+             'os': st['os'], 'wshape': inp['shape'], 'wtype': inp['ptype'], 'shape': st['shape'], 'prop_shape': st['prop_shape'],
              'mask_values': None if st['mask'] is None else {'shape': st['mask']['shape'], 'v': vlib.fl([float(b) for b in st['mask']['bits']])}}] + \
            ([{'op': 'c02.fix', 'v': vlib.fl(c['fix_probe'])}] if c.get('fix_probe') else [])
 
@@ -424,6 +444,7 @@ def compare(c, io, mo):
         return None
     if not m.get('ok'): return f"model refused ({m.get('err')}), the implementation answered"
     if list(m['out_shape']) != io['shape']: return f"output shape: implementation {io['shape']}, model {m['out_shape']} (shape/prop_shape defaults, broadcasting, oversample)"
+    if m.get('ptype') != io['ptype']: return f"output plane type: implementation {io['ptype']}, model {m.get('ptype')} (input {io['in']['ptype']})"
     # the split the model derives (np.fix of the field's shift) is the split the code used
     for k, (f, sp) in enumerate(zip(io['in']['fields'], m['splits'])):
         msub = vlib.unfl(sp[2:])
@@ -472,6 +493,10 @@ def fraunhofer(canvas, ar, ac, gr, gc):
 def oracle(c, io):
     st = c['stages'][-1]
     bad = (st['mask'] or {}).get('bad')
+    if io['in']['ptype'] not in ('pupil', 'image'):
+        # not a wavefront "that has passed planes from a pupil to an image plane (or back)": nothing may be answered, whatever the mask
+        if io.get('exc') == 'TypeError': return None
+        return f"a wavefront of plane type {io['in']['ptype']} must be refused with TypeError, got {io.get('exc', 'a result')}" + (f" ({io.get('msg')})" if 'exc' in io else '')
     if 'exc' in io:
         # a mask without support, or of the wrong shape, must be refused (ValueError; NumPy's IndexError for the empty support is accepted as a refusal)
         if bad == 'empty' and io['exc'] in ('ValueError', 'IndexError'): return None
@@ -555,7 +580,7 @@ def signature(c):
     tl = 'none' if not st['tilt_px'] else ('sub' if all(abs(v) < 1 for t in st['tilt_px'] for v in t) else 'px')
     return (f"sc={c.get('scale')} ne={c.get('near_equal')} {len(c['stages'])} {c['pupil']['shape']} seg={c['pupil']['seg'] is not None} amp0={[i for i, a in enumerate(c['pupil']['amp']) if a == 0][:6]} "
             f"os={st['os']} shape={st['shape']} prop={st['prop_shape']} mask={_mask_box(st)} tilt={tl} "
-            f"wl={c.get('wl', WL):.3g} z={c.get('z', Z):g} fit={bool(c.get('fit_tilt'))} dx={'s' if c['scalar_dx'] else 'p'} du={'iso' if st['du'][0] == st['du'][1] else 'aniso'}")
+            f"wl={c.get('wl', WL):.3g} z={c.get('z', Z):g} fit={bool(c.get('fit_tilt'))} dx={'s' if c['scalar_dx'] else 'p'} du={'iso' if st['du'][0] == st['du'][1] else 'aniso'}" + (' untyped' if c.get('untyped') else ''))
 
 def nontrivial(c):
     st = c['stages'][-1]
@@ -569,6 +594,7 @@ def tags(c):
     t.append('pupil:' + ('1x1' if m == n == 1 else 'square-even' if m == n and m % 2 == 0 else 'square-odd' if m == n else 'non-square'))
     if c['pupil']['seg'] is not None: t.append('segmented')
     if st['mask'] is not None: t.append('mask')
+    if c.get('untyped'): t.append('untyped:' + ('bad-mask' if (st['mask'] or {}).get('bad') else 'mask' if st['mask'] is not None else 'no-mask'))
     if st['prop_shape'] is not None: t.append('prop_shape')
     if st['tilt_px']: t.append('tilt')
     if c.get('fit_tilt'): t.append('per-field-tilt')
